@@ -22,6 +22,12 @@ Proof.
   destruct (cmp_sem o v w) as [[|]|]; try reflexivity. apply IH. intros x Hx. apply H. right. exact Hx.
 Qed.
 
+Lemma eval_all_ext : forall ev1 ev2 cs, (forall c, In c cs -> ev1 c = ev2 c) -> eval_all ev1 cs = eval_all ev2 cs.
+Proof.
+  intros ev1 ev2 cs. induction cs as [|c cs IH]; intros H; [reflexivity|].
+  simpl. rewrite (H c (or_introl eq_refl)). rewrite IH; [reflexivity|]. intros x Hx. apply H. right. exact Hx.
+Qed.
+
 (* the value of an expression depends only on the names it mentions *)
 Lemma ceval_coincidence : forall e ctx rho1 rho2,
   (forall x, mem x ctx = false -> rho1 x = rho2 x) -> mentions ctx e = false -> ceval rho1 e = ceval rho2 e.
@@ -41,7 +47,9 @@ Proof.
     + (* sub *) destruct cs as [|a [|b [|c cs]]]; try reflexivity. simpl. rewrite (Kid a), (Kid b); simpl; auto.
     + (* mult *) destruct cs as [|a [|b [|c cs]]]; try reflexivity. simpl. rewrite (Kid a), (Kid b); simpl; auto.
     + (* usub *) destruct cs as [|a [|b cs]]; try reflexivity. simpl. rewrite (Kid a); [reflexivity|left; reflexivity].
+    + (* subscript *) destruct cs as [|a [|b [|c cs]]]; try reflexivity. simpl. rewrite (Kid a), (Kid b); simpl; auto.
     + (* ifexp *) destruct cs as [|a [|b [|c [|d cs]]]]; try reflexivity. simpl. rewrite (Kid a), (Kid b), (Kid c); simpl; auto.
+    + (* tuple *) simpl. rewrite (eval_all_ext (ceval rho1) (ceval rho2) cs Kid). reflexivity.
   - (* compare *) destruct cs as [|a rest]; [reflexivity|]. simpl. rewrite (Kid a) by (left; reflexivity).
     destruct (ceval rho2 a); [|reflexivity]. apply eval_chain_ext. intros c Hc. apply Kid. right. exact Hc.
 Qed.
@@ -52,16 +60,15 @@ Variable fclass : list str -> callclass.
 (* THE FIRST SENTENCE OF THE PROPERTY, on the fragment of Model/C04Eval.v: for every external subexpression s that PreTranslator
    finds in a well-formed query body e (context ctx = the query variables), what the extractor computes - Python's eval of the text
    ast2src prints for s, in the caller's scope rho_caller - is the value s has "in place", i.e. under ANY binding rho_place of the
-   query variables and lambda parameters (the names c' of the context at that place) that agrees with the caller's scope elsewhere.
-   (honest: no list / starred element that mentions a query variable - the known defect of the marking.) *)
+   query variables and lambda parameters (the names c' of the context at that place) that agrees with the caller's scope elsewhere. *)
 Theorem bound_value : forall ctx e p c' s rho_caller rho_place,
-  wf e = true -> honest (mark fclass ctx e) = true ->
+  wf e = true ->
   In p (externals fclass ctx e) -> sub_ctx ctx e p = Some (c', s) -> expr_kindb (ekind s) = true ->
   (forall x, mem x c' = false -> rho_caller x = rho_place x) ->
   exists n, forall f, n <= f -> eval_tokens f (print pony_style s) rho_caller = ceval rho_place s.
 Proof.
-  intros ctx e p c' s r1 r2 Hw Hh Hin Hs Hk Hr.
-  destruct (externals_sound fclass ctx e p c' s Hw Hh Hin Hs) as [Hm _].
+  intros ctx e p c' s r1 r2 Hw Hin Hs Hk Hr.
+  destruct (externals_sound fclass ctx e p c' s Hw Hin Hs) as [Hm _].
   destruct (pony_roundtrip s (sub_wf p ctx e c' s Hs Hw) Hk) as [n Hn].
   exists n. intros f Hf. unfold eval_tokens. rewrite (Hn f Hf). apply (ceval_coincidence s c'); assumption.
 Qed.
@@ -81,10 +88,17 @@ Definition nmz (c : Z) : expr := Node (LName [c]) [].
 Definition demo_ext : expr :=
   Node (LOp KAdd) [Node (LOp KMult) [Node (LOp KSub) [nmz 97; Node (LConst [49]%Z) []]; Node (LConst [50]%Z) []]; nmz 98].
 Definition demo_query : expr := Node (LCompare [CEq]) [Node (LAttribute [120]%Z) [nmz 112]; demo_ext].
-Definition demo_env : env := fun s => match s with [97%Z] => Some 2%Z | [98%Z] => Some 0%Z | _ => None end.
+Definition demo_env : env := fun s => match s with [97%Z] => Some (VInt 2) | [98%Z] => Some (VInt 0) | [110%Z] => Some (VStr [74; 111]%Z) | _ => None end.
+
+(* `p.name == (n + 'e', (a, 'x'))[b]`: strings and tuples; the external is the subscript, bound as 'Joe' when n = 'Jo', b = 0 *)
+Definition demo_str : expr :=
+  Node (LOp KSubscript) [Node (LOp KTuple) [Node (LOp KAdd) [nmz 110; Node (LConst [39; 101; 39]%Z) []];
+                                             Node (LOp KTuple) [nmz 97; Node (LConst [39; 120; 39]%Z) []]]; nmz 98].
 
 Lemma demo_bound :
   externals (fun _ => FPlain) [[112]%Z] demo_query = [[1]] /\ sub_ctx [[112]%Z] demo_query [1] = Some ([[112]%Z], demo_ext) /\
-  wf demo_query = true /\ honest (mark (fun _ => FPlain) [[112]%Z] demo_query) = true /\
-  eval_tokens 40 (print pony_style demo_ext) demo_env = Some 2%Z.
+  wf demo_query = true /\
+  eval_tokens 40 (print pony_style demo_ext) demo_env = Some (VInt 2) /\
+  externals (fun _ => FPlain) [[112]%Z] (Node (LCompare [CEq]) [Node (LAttribute [110]%Z) [nmz 112]; demo_str]) = [[1]] /\
+  eval_tokens 60 (print pony_style demo_str) demo_env = Some (VStr [74; 111; 101]%Z).
 Proof. vm_compute. repeat split; reflexivity. Qed.
